@@ -288,6 +288,34 @@ def dict_items(node: ast.AST | None) -> dict | None:
     return None
 
 
+def elementwise(node: ast.AST | None):
+    """(element expression in terms of `_x`, iterable expression, 'list' | 'iter') for an order-preserving element-wise construction:
+    `[E(v) for v in xs]`, `(E(v) for v in xs)`, `list(map(f, xs))`, `map(f, xs)`; None for anything else (filters, several generators)"""
+    if node is None:
+        return None
+    kind = "iter"
+    if isinstance(node, ast.Call) and dotted_of(node.func) == "list" and len(node.args) == 1 and not node.keywords:
+        kind = "list"
+        node = node.args[0]
+    if isinstance(node, ast.Call) and dotted_of(node.func) == "map" and len(node.args) == 2 and not node.keywords:
+        f = node.args[0]
+        if isinstance(f, ast.Lambda) and len(f.args.args) == 1:
+            elt = _copy.deepcopy(f.body)
+            for x in ast.walk(elt):
+                if isinstance(x, ast.Name) and x.id == f.args.args[0].arg:
+                    x.id = "_x"
+        else:
+            elt = ast.Call(func=f, args=[ast.Name(id="_x", ctx=ast.Load())], keywords=[])
+        return ast.fix_missing_locations(elt), node.args[1], kind
+    if isinstance(node, (ast.ListComp, ast.GeneratorExp)) and len(node.generators) == 1 and not node.generators[0].ifs and isinstance(node.generators[0].target, ast.Name):
+        elt = _copy.deepcopy(node.elt)
+        for x in ast.walk(elt):
+            if isinstance(x, ast.Name) and x.id == node.generators[0].target.id:
+                x.id = "_x"
+        return elt, node.generators[0].iter, ("list" if isinstance(node, ast.ListComp) else kind)
+    return None
+
+
 def CT(src: str, strip: bool = False) -> str:
     "canonical text of an expected expression (the index holds idiom-canonical trees: expected texts are canonicalised the same way)"
     t = ast.unparse(canon(ast.parse(src, mode="eval").body))
@@ -351,6 +379,25 @@ class _Idioms(ast.NodeTransformer):
         if d == "dict" and not n.args and n.keywords and all(k.arg for k in n.keywords):
             return ast.Dict(keys=[ast.Constant(k.arg) for k in n.keywords], values=[k.value for k in n.keywords])
         return n
+
+    @staticmethod
+    def _as_map(n):
+        "`f(x) for x in xs` (one generator, no filter, f independent of x) -> map(f, xs)"
+        if len(n.generators) == 1 and not n.generators[0].ifs and not n.generators[0].is_async and isinstance(n.generators[0].target, ast.Name) \
+                and isinstance(n.elt, ast.Call) and len(n.elt.args) == 1 and not n.elt.keywords and isinstance(n.elt.args[0], ast.Name) \
+                and n.elt.args[0].id == n.generators[0].target.id and dotted_of(n.elt.func) is not None \
+                and not any(isinstance(x, ast.Name) and x.id == n.generators[0].target.id for x in ast.walk(n.elt.func)):
+            return ast.Call(func=ast.Name(id="map", ctx=ast.Load()), args=[n.elt.func, n.generators[0].iter], keywords=[])
+        return None
+
+    def visit_GeneratorExp(self, n: ast.GeneratorExp):
+        self.generic_visit(n)
+        return self._as_map(n) or n
+
+    def visit_ListComp(self, n: ast.ListComp):
+        self.generic_visit(n)
+        m = self._as_map(n)
+        return ast.Call(func=ast.Name(id="list", ctx=ast.Load()), args=[m], keywords=[]) if m is not None else n
 
     def visit_IfExp(self, n: ast.IfExp):
         self.generic_visit(n)
